@@ -9,7 +9,9 @@ EVENT/REQ/CLOSE/AUTH and of event and filter objects), raw non-JSON texts, deep 
 events with hostile field types, through the real start_client on both backends, with and without NIP-42; after
 each hostile frame the same connection (if it was kept open) and a second, well-behaved connection must still get
 a REQ answered, a fresh valid EVENT accepted and that event pushed to a watcher; no exception may escape the
-handler; closing is clean; afterwards the registry is empty and no task of the connection is left.
+handler; closing is clean; afterwards the registry is empty and no task of the connection is left.  A subscriber that stops
+reading its socket: while stored answers are owed to it (stalled_reader), and while thousands of live pushes are owed to it
+(stalled_live_flood: events x live subscriptions); the others are served throughout and after it has gone.
 """
 import asyncio
 import copy
@@ -458,6 +460,199 @@ def stalled_reader(report, backend):
         relay.close()
 
 
+def _until_quiet(relay, idle_s=3.0, cap_s=300.0):
+    """Run the loop until nothing is in flight (Relay.quiescent, then the LMDB writer drained, as Relay.settle does).  Unlike
+    Relay.settle this is not a time budget for the work: a burst of hundreds of frames may take long on a loaded machine and is
+    waited for as long as *something moves* (a frame sent, a message consumed, a queue growing, a connection ending).  It gives
+    up — returns False — only when nothing at all has moved for idle_s although work is outstanding: that is what "wedged" means."""
+    from lib.proto import _real_sleep
+
+    def moved():
+        return tuple((len(c.out), c.inbox.qsize(), c.idle, c.done, c._queue.qsize() if c._queue is not None else -1) for c in relay.conns)
+
+    async def go():
+        loop = relay.loop
+        stable, last, t_last, t0 = 0, moved(), loop.time(), loop.time()
+        while stable < 2:
+            await _real_sleep(0.002)
+            now, cur = loop.time(), moved()
+            if cur != last:
+                last, t_last = cur, now
+            stable = stable + 1 if relay.quiescent() else 0
+            if not stable and (now - t_last > idle_s or now - t0 > cap_s):
+                return False
+        return True
+
+    quiet = relay.run(go())
+    if quiet and relay.backend == "kv":
+        relay.store.quiesce()
+        quiet = relay.run(go())
+    return quiet
+
+
+EPHEMERAL = 20001
+
+
+def stalled_live_flood(report, backend, rng, n_events, n_subs, tag):
+    """The live-push side of a reader that has stopped reading, at scale.  One connection holds `n_subs` live subscriptions,
+    reads their EOSEs and then never reads its socket again (its ws_send does not return, as a websocket send does once the peer's
+    window and the server's buffer are full); two or three other connections publish `n_events` events that match all of them, in
+    bursts.  What the relay owes that client and cannot deliver (n_events * n_subs messages) grows along both axes; whatever the
+    relay does about it — buffer, drop, disconnect — is its business, but: every EVENT of every other connection gets its OK,
+    a reading subscriber gets every event exactly once, a REQ gets its EOSE, throughout; when the silent client disconnects its
+    handler ends; afterwards the others are served as before, every handler ends on its disconnect, the registry is empty and
+    no task is left.
+    The sizes are not tuned to any particular buffer: several thousand undelivered messages is more than any plausible
+    per-connection or per-subscription allowance (websocket write buffers, queue bounds and batch sizes are of the order of
+    10^2..10^3), and the thorough tier goes an order of magnitude further.  Most events are ephemeral (20000 <= kind < 30000: pushed
+    live like any other, never written by LMDB), every 16th is a stored kind-1 note: the volume is in the live path, which is the one
+    under test, and the run time stays small."""
+    relay = Relay(backend)
+    conns = []
+    payload = {"backend": backend, "case": "stalled-live-flood", "events": n_events, "subscriptions_of_the_silent_client": n_subs, "tag": tag}
+
+    def fail(what, **more):
+        report.property_failure("%s: %s" % (backend, what), dict(payload, **more), None)
+
+    def connect(addr):
+        c = Conn(relay, remote_addr=addr, start=False)
+        c.task = relay.loop.create_task(c._main())
+        conns.append(c)
+        return c
+
+    def eose_for(c, n0, sub_id):
+        return any(isinstance(f, list) and len(f) > 1 and f[0] == "EOSE" and f[1] == sub_id for f in c.frames(n0))
+
+    try:
+        author = KEYS[1].public_key.hex()
+        w = connect("6.6.6.6")
+        q = connect("5.5.5.5")
+        pubs = [connect("4.4.4.%d" % (i + 1)) for i in range(rng.choice([2, 3]))]
+        payload["publishers"] = len(pubs)
+        shapes = [{"kinds": [1, EPHEMERAL]}, {"authors": [author]}, {"since": T0 + 5999}, {"kinds": [EPHEMERAL, 1, 7], "authors": [author]}]
+        for j in range(n_subs):
+            w.send(["REQ", "live%d" % j, dict(shapes[j % len(shapes)])], settle=False)
+        q.send(["REQ", "mine", {"kinds": [1, EPHEMERAL]}], settle=False)
+        _until_quiet(relay)
+        silent = ["live%d" % j for j in range(n_subs) if not eose_for(w, 0, "live%d" % j)] + ([] if eose_for(q, 0, "mine") else ["mine"])
+        if silent:
+            fail("%d REQ(s) on an idle relay got no EOSE" % len(silent), subscriptions=silent, frames=[t[:200] for t in w.out[:40]])
+        w.stalled = True          # from here on the client does not read
+        events = []
+        for i in range(n_events):
+            events.append(relay.signed_event(KEYS[1], kind=1 if i % 16 == 0 else EPHEMERAL, content="flood %d %s %s" % (i, backend, tag),
+                                             created_at=T0 + 6000 + i))
+        wedged = False
+        i, burst_no = 0, 0
+        while i < n_events and not wedged:
+            burst = events[i:i + rng.randint(1, max(2, n_events // 12))]
+            sent = {id(p): [] for p in pubs}
+            marks = {id(p): len(p.out) for p in pubs}
+            nq = len(q.out)
+            for ev in burst:
+                p = pubs[rng.randrange(len(pubs))]
+                sent[id(p)].append(ev)
+                p.send(["EVENT", ev], settle=False)
+            quiet = _until_quiet(relay)
+            # every EVENT of every publisher: answered, in order, with OK true
+            for no, p in enumerate(pubs):
+                oks = [f for f in p.frames(marks[id(p)]) if isinstance(f, list) and f and f[0] == "OK"]
+                for k, ev in enumerate(sent[id(p)]):
+                    if k >= len(oks) or oks[k][1] != ev["id"] or oks[k][2] is not True:
+                        at = i + burst.index(ev)
+                        fail("while another client with %d live subscription(s) was not reading its socket (%d event(s) published since "
+                             "it stopped), EVENT #%d of a well-behaved connection was %s" % (
+                                 n_subs, at, at, "not answered" if k >= len(oks) else "answered %r" % (oks[k],)),
+                             failed_at_event=at, event=ev, publisher=no)
+                        wedged = True
+                        break
+                if wedged:
+                    break           # one failing input is enough: the later EVENTs of the burst wait behind it
+                if len(oks) > len(sent[id(p)]):
+                    fail("a connection got more OK frames than it sent EVENTs", burst=burst_no)
+            if not wedged:
+                got = Counter(f[2]["id"] for f in q.frames(nq) if isinstance(f, list) and len(f) > 2 and f[0] == "EVENT" and f[1] == "mine")
+                if got != Counter(ev["id"] for ev in burst):
+                    missing = [ev["id"] for ev in burst if ev["id"] not in got]
+                    fail("while another client was not reading its socket, a reading subscriber was pushed %d of the %d events of a burst "
+                         "(%d missing, %d more than once)" % (len(got), len(burst), len(missing), sum(1 for v in got.values() if v > 1)),
+                         burst=burst_no, first_event=i, missing=missing[:5])
+                    wedged = wedged or bool(missing)
+            if not quiet and not wedged:
+                fail("the relay did not come to rest after a burst of %d EVENTs (nothing moved for 3 s with work outstanding)" % len(burst),
+                     burst=burst_no, first_event=i)
+                wedged = True
+            i += len(burst)
+            burst_no += 1
+            if not wedged and burst_no % 3 == 0:
+                p = pubs[rng.randrange(len(pubs))]
+                n0 = len(p.out)
+                p.send(["REQ", "probe", {"kinds": [99]}], settle=False)
+                answered = _until_quiet(relay) and eose_for(p, n0, "probe")
+                p.send(["CLOSE", "probe"], settle=False)      # (after the answer: a CLOSE that overtakes the query may rightly silence it)
+                if not answered:
+                    fail("while another client was not reading its socket (%d events published), a REQ of a well-behaved connection "
+                         "got no EOSE" % i, events_published=i)
+                    wedged = True
+        report.count("live_flood_events_published", i)
+        report.count("live_flood_messages_owed_to_the_silent_client", i * n_subs)
+        # ---- the silent client goes away ---------------------------------------------------------------
+        w.inbox.put_nowait(DISCONNECT)
+        _until_quiet(relay)
+        if not w.done:
+            fail("the handler of the client that had stopped reading did not end after its disconnect")
+        if w.exc is not None:
+            fail("%s escaped the handler of the client that had stopped reading: %r" % (type(w.exc).__name__, w.exc))
+        ev = relay.signed_event(KEYS[2], kind=1, content="after the silent client left %s %s" % (backend, tag), created_at=T0 + 9500)
+        p, r = pubs[0], pubs[-1]
+        n0, n1, nq = len(p.out), len(r.out), len(q.out)
+        p.send(["EVENT", ev], settle=False)
+        r.send(["REQ", "after", {"kinds": [1], "limit": 1}], settle=False)
+        _until_quiet(relay)
+        ok = [f for f in p.frames(n0) if isinstance(f, list) and len(f) > 2 and f[0] == "OK" and f[1] == ev["id"]]
+        if not ok or ok[0][2] is not True:
+            fail("after the client that had stopped reading disconnected, a fresh EVENT of another connection was %s"
+                 % ("not answered" if not ok else "refused"), event=ev)
+        elif not any(isinstance(f, list) and len(f) > 2 and f[0] == "EVENT" and f[2]["id"] == ev["id"] for f in q.frames(nq)):
+            fail("after the client that had stopped reading disconnected, a fresh EVENT was not pushed to a reading subscriber", event=ev)
+        if not eose_for(r, n1, "after"):
+            fail("after the client that had stopped reading disconnected, a REQ of another connection got no EOSE")
+        # ---- endings -----------------------------------------------------------------------------------
+        for c in conns:
+            if not c.done:
+                c.inbox.put_nowait(DISCONNECT)
+        _until_quiet(relay)
+        if any(not c.done for c in conns):
+            fail("the handler(s) of connection(s) %s did not end on their disconnect" % ", ".join(c.remote_addr for c in conns if not c.done))
+        for c in conns:
+            if c.done and c.exc is not None:
+                fail("closing connection %s escaped: %r" % (c.remote_addr, c.exc))
+        if any(v for v in relay.open_subscriptions().values()):
+            fail("subscriptions survive their connections (silent client, live flood): %r" % relay.open_subscriptions())
+        left = [t for t in asyncio.all_tasks(relay.loop) if not t.done()]
+        names = sorted(getattr(t.get_coro(), "__qualname__", str(t)) for t in left)
+        leaked = [n for n in names if any(k in n for k in ("start_client", "send_subscriptions", "run_query", "notify", "_main"))]
+        if leaked:
+            fail("%d task(s) of ended connections are still pending: %r" % (len(leaked), sorted(set(leaked))))
+        report.case(("live-flood", backend, n_events, n_subs, tag), nontrivial=True,
+                    sample={"case": "stalled-live-flood", "backend": backend, "events": n_events, "subscriptions_of_the_silent_client": n_subs,
+                            "publishers": len(pubs), "bursts": burst_no})
+        report.count("live_flood_runs")
+    finally:
+        # a relay that has stopped moving would make Relay.close wait for each handler in turn: end them here
+        # (and whatever they left pending, or it is reported once more, as noise, when the closed loop is collected)
+        stuck = [c for c in conns if not c.done]
+        rest = [c.task for c in stuck] + [t for t in asyncio.all_tasks(relay.loop) if not t.done() and any(
+            k in getattr(t.get_coro(), "__qualname__", "") for k in ("send_subscriptions", "run_query", "notify"))]
+        for t in rest:
+            t.cancel()
+        if rest:
+            relay.run(asyncio.wait(rest, timeout=2.0))
+        for c in stuck:
+            c.done = True
+        relay.close()
+
+
 def pipelined_disconnect(report, backend, rng, tag):
     """a client that pipelines its last command and its disconnect: both are already buffered when the handler reads, so the
     connection ends before the sender task (or a query task) has run a single step.  Nothing may escape the handler, the
@@ -579,6 +774,12 @@ def limited_connections(report, backend, rng, tag):
 
 
 KEYS = []
+# (events, live subscriptions of the silent client) per backend: the two axes along which the undelivered messages grow.  An event
+# costs a few ms on LMDB (ephemeral: no write) and tens of ms on SQLite (every insert is several round trips to the aiosqlite
+# thread), so the quick tier takes the event axis far on LMDB and the subscription axis (30 of the 32 a connection may hold) on
+# SQL; the code between the socket and the storage is the same for both.  2500 resp. 7500 undelivered messages in the quick tier.
+LIVE_FLOODS = {"quick": {"kv": [(2500, 1)], "sql": [(250, 30)]},
+               "thorough": {"kv": [(20000, 1), (3000, 8), (400, 30)], "sql": [(1500, 1), (300, 30), (600, 4)]}}
 
 
 def run(report, tier, seed):
@@ -594,7 +795,10 @@ def run(report, tier, seed):
         "signed events with hostile field types and sizes; 20 raw texts (invalid JSON, NaN, 1e400, lone surrogate, 3000-deep nesting, "
         "100 kB id, 600 filters); with and without NIP-42; after every frame: probe REQ on the same and on a second connection, "
         "periodically a fresh EVENT that must be accepted and pushed to a watcher's two subscriptions; a subscriber that stops reading "
-        "while max_limit+12 events match it; clients whose last command(s) and disconnect are buffered together, so that the "
+        "while max_limit+12 events match it; the live-push side of the same at scale: a client with 1..30 live subscriptions stops "
+        "reading, 2-3 other connections publish 250..2500 matching events in bursts (2500..7500 undelivered messages; thorough: "
+        "up to 20000 events), OK for every EVENT in order, every event pushed exactly once to a reading subscriber, EOSE for "
+        "REQs in between, then the silent client disconnects (handler ends, others served, no task left); clients whose last command(s) and disconnect are buffered together, so that the "
         "connection ends before its sender or query task has run a step; a relay with per-address limits for three commands under a "
         "simulated clock, connections of three addresses coming and going with pauses of 0 s to 100 s (every disconnect runs the "
         "limiter's cleanup); non-trivial = the frame got an answer")
@@ -605,6 +809,8 @@ def run(report, tier, seed):
         for backend in ("sql", "kv"):
             ladder_corr(report, drv, backend)
             stalled_reader(report, backend)
+            for n_events, n_subs in LIVE_FLOODS[tier if tier == "quick" else "thorough"][backend]:
+                stalled_live_flood(report, backend, rng, n_events, n_subs, "%dx%d" % (n_events, n_subs))
             for i in range(2 if tier == "quick" else 25):
                 pipelined_disconnect(report, backend, rng, i)
             for i in range(4 if tier == "quick" else 60):
